@@ -57,6 +57,8 @@ type issued struct {
 }
 
 type world struct {
+	c02prev map[chainhash.Hash]int // C02 wallet level: credits per recorded transaction at the previous synchronised point
+	beforeAttach func() // runs once inside open(), before SynchronizeRPC
 	env    *core.Env
 	p      *core.Plan
 	prop   string
@@ -129,6 +131,7 @@ var ownSigs = map[string][]string{
 	"C10": {"c10w:"},
 	"C13": {"c13w:"},
 	"C12": {"c12w:"},
+	"C02": {"c02w:"},
 }
 
 func (x *world) fail(sig, format string, a ...any) {
@@ -233,6 +236,11 @@ func (x *world) open() error {
 		if err := w.Unlock(x.privPass, nil); err != nil {
 			return fmt.Errorf("unlock: %w", err)
 		}
+	}
+	if f := x.beforeAttach; f != nil {
+		// the wallet is loaded and started but has no chain backend yet
+		x.beforeAttach = nil
+		f()
 	}
 	x.noteClient()
 	x.client = simchain.NewClient(x.node, x.birthday, int(x.p.C("queue_buf", 20)))
